@@ -903,8 +903,10 @@ Section ApiSafe.
       eapply okv_mbind with (P := ntl).
       + apply okv_try_finally; [|okd].
         apply ok_mbind; [okd|]. intros b. destruct b.
-        * eapply okv_mbind; [apply okv_rename_for_deletion; exact Ha|].
-          intros d Hd. apply okv_ret. auto with okdb.
+        * eapply okv_mbind; [apply okv_catch; apply okv_rename_for_deletion; exact Ha|].
+          intros [d|e] Hd.
+          -- apply okv_ret. auto with okdb.
+          -- destruct e; try apply okv_raise. apply okv_ret. apply ntl_nil.
         * apply okv_ret. apply ntl_nil.
       + intros d Hd. eapply okv_mbind; [apply IH; exact Hl|]. intros r Hr.
         apply okv_ret. auto with okdb.
@@ -925,6 +927,7 @@ Section ApiSafe.
   Proof.
     intros p. unfold delete_object.
     apply okv_try_finally; [|okd].
+    apply ok_mbind; [okd|]. intros _.
     apply ok_mbind; [okd|]. intros _.
     apply ok_mbind; [okd|]. intros r.
     assert (Hd : Ok (d <- rename_for_deletion (APidRef p) ;; delete_metadata p None ;;; delete_marked [d])).
